@@ -762,3 +762,183 @@ func progsGoexit(t *testing.T, prop string) {
 		}
 	}
 }
+
+// ---------------------------------------------------------------- degenerate parameters
+
+func init() {
+	// parameters at and below zero where the unchanged library has a plain meaning: an interval or frequency of zero (or
+	// less) is no pause at all, Take(n <= 0) takes nothing. The values are still exactly the input, in order, and
+	// everything closes; no library goroutine may panic on them.
+	progs["degenerate-parameters"] = func(c *caseT) string {
+		ctx, cancel := context.WithCancel(context.Background())
+		defer cancel()
+		xs := seqInts(1, c.N)
+		d := time.Duration(c.Tick)
+		switch c.Arg {
+		case "Throttling":
+			got := api.ToSeq(api.Throttling(ctx, api.Seq(xs...), max(c.Par, 1), d))
+			if !slices.Equal(got, xs) && !(len(got) == 0 && len(xs) == 0) {
+				return fmt.Sprintf("Throttling with interval %v: %s", d, diffAt(got, xs))
+			}
+		case "Emit":
+			out, exx := api.Emit(ctx, c.Cap, d, "pure", func(i int) (int, error) { return i, nil })
+			go func() {
+				for range exx {
+				}
+			}()
+			for i := 0; i < c.N; i++ {
+				if v, ok := <-out; !ok || v != i {
+					return fmt.Sprintf("Emit with frequency %v: value %d is %d (open=%v)", d, i, v, ok)
+				}
+			}
+			cancel()
+			for range out {
+			}
+		case "Take":
+			got := api.ToSeq(api.Take(ctx, api.Seq(xs...), c.Par))
+			if len(got) != 0 {
+				return fmt.Sprintf("Take(%d) delivered %v", c.Par, got)
+			}
+		}
+		return ""
+	}
+}
+
+func progsDegenerate(t *testing.T, prop string) {
+	for _, v := range []string{"", "fork"} {
+		for _, d := range []time.Duration{0, -time.Millisecond, -1, 1} {
+			for _, n := range []int{0, 1, 5, 40} {
+				for _, ops := range []int{1, 3} {
+					runProg(t, prop, &caseT{Stage: "prog/degenerate-parameters", Arg: "Throttling", N: n, Par: ops, Tick: int64(d), Comment: v})
+				}
+				runProg(t, prop, &caseT{Stage: "prog/degenerate-parameters", Arg: "Emit", N: n, Cap: n % 3, Tick: int64(d), Comment: v})
+			}
+		}
+		for _, n := range []int{0, -1, -1 << 62} {
+			runProg(t, prop, &caseT{Stage: "prog/degenerate-parameters", Arg: "Take", N: 5, Par: n, Comment: v})
+		}
+	}
+}
+
+// ---------------------------------------------------------------- fork workers racing for the last output slot
+
+func init() {
+	progs["fork-cancel-no-receiver"] = func(c *caseT) string {
+		par := c.Par
+		for round := 0; round < c.Delay; round++ {
+			ctx, cancel := context.WithCancel(context.Background())
+			in := make(chan int)
+			gate := make(chan struct{})
+			var waiting sync.WaitGroup
+			hold := false
+			f := func(x int) int {
+				if hold {
+					waiting.Done()
+					<-gate // all workers leave their call at the same moment
+				}
+				return x
+			}
+			var out <-chan int
+			var exx <-chan error
+			switch c.Arg {
+			case "fork.Filter":
+				out = fork.Filter(ctx, par, in, fork.Pure(func(x int) bool { f(x); return true }))
+			default:
+				out, exx = fork.Map(ctx, par, in, fork.Pure(f))
+			}
+			// fill the output up to c.Cap free slots
+			for i := 0; i < cap(out)-c.Cap; i++ {
+				in <- i
+			}
+			synctest.Wait()
+			hold = true
+			waiting.Add(par)
+			for i := 0; i < par; i++ {
+				in <- 1000 + i
+			}
+			waiting.Wait()
+			close(gate)
+			close(in)
+			cancel()
+			synctest.Wait()
+			if g := libCensus(); len(g) > 0 {
+				return fmt.Sprintf("round %d: %s with %d workers, %d free output slots, all workers deliver at once, input closed, context cancelled, nobody receiving: %d library goroutines stay, e.g.\n%s", round, c.Arg, par, c.Cap, len(g), g[0])
+			}
+			for range out {
+			}
+			if exx != nil {
+				for range exx {
+				}
+			}
+		}
+		return ""
+	}
+}
+
+func progsForkCancel(t *testing.T, prop string) {
+	for _, st := range []string{"fork.Map", "fork.Filter"} {
+		for _, par := range []int{2, 3, 8} {
+			for _, free := range []int{0, 1, 2} {
+				runProg(t, prop, &caseT{Stage: "prog/fork-cancel-no-receiver", Arg: st, Par: par, Cap: free, Delay: common.Pick(150, 2000)})
+			}
+		}
+	}
+}
+
+// ---------------------------------------------------------------- Join: an input that is over before the others are attached
+
+// joinEarlyClose (real time, no clock in the verdict): Join of an input that is already closed and empty with one that
+// stays open. The output must not report closed while the second input is open - whichever goroutine of the stage
+// happens to run first. The window is a few hundred nanoseconds of real parallelism, hence many rounds.
+func joinEarlyClose(prop string, rounds int, fk bool) {
+	c := &caseT{Site: "Join/early-close", Stage: "Join/early-close", N: rounds, Comment: fmt.Sprint("real scheduling, fork=", fk)}
+	id := common.ID(fmt.Sprint("join-early-close", rounds, fk))
+	if common.Skip(id) {
+		return
+	}
+	rec.Begin(id, c)
+	defer rec.End(id)
+	join := pipe.Join[int]
+	if fk {
+		join = fork.Join[int]
+	}
+	bad := ""
+	soakGuard("Join/early-close", func() {
+		for r := 0; r < rounds && bad == ""; r++ {
+			ctx, cancel := context.WithCancel(context.Background())
+			done := make(chan int)
+			close(done)
+			done2 := make(chan int, 1)
+			close(done2)
+			open := make(chan int)
+			var out <-chan int
+			if r%2 == 0 {
+				out = join(ctx, done, open)
+			} else {
+				out = join(ctx, done, done2, open)
+			}
+			if p := common.Catch(func() {
+				select {
+				case v, ok := <-out:
+					bad = fmt.Sprintf("round %d: the output yields (%d, open=%v) while an input is still open and nothing was sent", r, v, ok)
+				default:
+				}
+				open <- 7
+				if v, ok := <-out; !ok || v != 7 {
+					bad = fmt.Sprintf("round %d: sent 7 on the open input, the output yields (%d, open=%v)", r, v, ok)
+				}
+			}); p != nil {
+				bad = fmt.Sprintf("round %d: panic %v", r, p)
+			}
+			close(open)
+			for range out {
+			}
+			cancel()
+		}
+	})
+	if bad != "" {
+		rec.Violate(prop+"/Join/early-close", bad, c)
+	}
+	rec.Eval(fmt.Sprint("join-early-close", rounds, fk), true)
+	rec.Count("early_close_rounds", int64(rounds))
+}
